@@ -137,11 +137,21 @@ package cache
 //@   ensures partial_archive_is_aborted [C13 except=walkFailed]: failed ==> called("abort")
 //
 // Retrieval: an entry that cannot be unpacked completely is a miss.
+// Ghost `stepfailed`: creating a directory, opening, copying, closing or linking some member failed. A hit
+// requires that no step failed (a file cut short by a write error must not be reported as retrieved).
 //@ func readTar
+//@   requires !stepfailed
 //@   opt nopanic=off
 //@   opt panics=allowed
+//@   callsite os.MkdirAll trackresult stepfailed bool: stepfailed || result != nil
+//@   callsite openFile trackresult stepfailed bool: stepfailed || result1 != nil
+//@   callsite io.Copy trackresult stepfailed bool: stepfailed || result1 != nil
+//@   callsite (File).Close trackresult stepfailed bool: stepfailed || result != nil
+//@   callsite os.Symlink trackresult stepfailed bool: stepfailed || result != nil
+//@   invariant "loop#1" no_step_failed_so_far: !stepfailed
 //@   ensures error_is_a_miss [C13]: result1 != nil ==> !result0
 //@   ensures hit_is_complete [C13]: result0 ==> result1 == nil
+//@   ensures hit_means_every_member_was_restored [C13]: result0 ==> !stepfailed
 //@ func (httpCache).retrieve
 //@   requires cache != nil
 //@   opt nopanic=off
